@@ -11,6 +11,7 @@ import (
 	"sort"
 
 	"github.com/youchainhq/go-youchain/common"
+	"github.com/youchainhq/go-youchain/consensus"
 	"github.com/youchainhq/go-youchain/consensus/solo"
 	"github.com/youchainhq/go-youchain/core"
 	"github.com/youchainhq/go-youchain/core/state"
@@ -102,9 +103,10 @@ var contractCode = common.FromHex("36600a57600160005500" + "5b600060005500")
 
 // Node is one chain with its own database.
 type Node struct {
-	Db youdb.Database
-	Bc *core.BlockChain
-	St *stk.Staking
+	Db  youdb.Database
+	Bc  *core.BlockChain
+	St  *stk.Staking
+	Mux *event.TypeMux
 }
 
 // World is the fixture of one history.
@@ -128,12 +130,21 @@ type TxInfo struct {
 	Detained int64
 }
 
-func newNode(g *core.Genesis) *Node {
+// ChainEngine is what a node needs from its engine: the consensus interface plus the staking module's vote check.
+type ChainEngine interface {
+	consensus.Engine
+	CheckValidatorVotes(chain consensus.ChainReader, header *types.Header) (map[common.Address]bool, error)
+}
+
+func newNode(g *core.Genesis, eng ChainEngine) *Node {
 	db := youdb.NewMemDatabase()
 	g.MustCommit(db)
-	eng := solo.NewSolo()
-	// the chain posts its head events with `go mux.Post`: it needs a mux, which here has no subscribers
-	bc, err := core.NewBlockChain(db, eng, new(event.TypeMux), params.ArchiveNode, local.FakeDetailDB())
+	if eng == nil {
+		eng = solo.NewSolo()
+	}
+	// the chain posts its head events with `go mux.Post`: it needs a mux (without subscribers unless a miner is attached)
+	mux := new(event.TypeMux)
+	bc, err := core.NewBlockChain(db, eng, mux, params.ArchiveNode, local.FakeDetailDB())
 	if err != nil {
 		panic(err)
 	}
@@ -143,7 +154,7 @@ func newNode(g *core.Genesis) *Node {
 	if err := st.Start(bc, eng); err != nil {
 		panic(err)
 	}
-	return &Node{db, bc, st}
+	return &Node{Db: db, Bc: bc, St: st, Mux: mux}
 }
 
 // Stop releases the goroutines of both chains.
@@ -156,7 +167,10 @@ func (w *World) Stop() {
 var GenesisTokens = []int64{1000, 505, 300}
 
 // NewWorld builds genesis and the two chains.
-func NewWorld() *World {
+func NewWorld() *World { return NewWorldEngine(nil) }
+
+// NewWorldEngine builds the world with the given engine on chain A (nil = solo); chain B always runs the plain solo engine.
+func NewWorldEngine(engA ChainEngine) *World {
 	w := &World{Who: map[string]*Who{}, Names: map[common.Address]string{}, Signer: types.MakeSigner(big.NewInt(0)),
 		TxKind: map[common.Hash]*TxInfo{}}
 	add := func(name string, k *fixture.Key, addr common.Address) {
@@ -203,7 +217,7 @@ func NewWorld() *World {
 	}
 	w.Genesis = &core.Genesis{NetworkId: params.NetworkIdForTestCase, GasLimit: 8000000, Alloc: alloc, Validators: vals,
 		CurrVersion: params.YouV5}
-	w.A, w.B = newNode(w.Genesis), newNode(w.Genesis)
+	w.A, w.B = newNode(w.Genesis, engA), newNode(w.Genesis, nil)
 	return w
 }
 
@@ -221,15 +235,16 @@ func (w *World) name(a common.Address) string {
 
 // ATx is one abstract transaction of a history (spec/Staking.tla, record TxRec).
 type ATx struct {
-	K string `json:"k"` // kind
-	A string `json:"a"` // sender
-	B string `json:"b"` // second party: recipient of a transfer / of a withdrawal
-	V string `json:"v"` // validator
-	X int64  `json:"x"` // amount (LU)
-	P int64  `json:"p"` // gas price
-	F int64  `json:"f"` // flag: status (0/1), role (1..3), accept-delegation
-	C int64  `json:"c"` // commission rate (1/10000)
-	R int64  `json:"r"` // risk obligation (1/10000)
+	K string `json:"k"`           // kind
+	A string `json:"a"`           // sender
+	B string `json:"b"`           // second party: recipient of a transfer / of a withdrawal
+	V string `json:"v"`           // validator
+	X int64  `json:"x"`           // amount (LU)
+	P int64  `json:"p"`           // gas price
+	F int64  `json:"f"`           // flag: status (0/1), role (1..3), accept-delegation
+	C int64  `json:"c"`           // commission rate (1/10000)
+	R int64  `json:"r"`           // risk obligation (1/10000)
+	G int64  `json:"g,omitempty"` // gas limit override (miner stage)
 }
 
 // ABlock is one abstract block.
@@ -292,7 +307,16 @@ func (w *World) MakeTx(a *ATx, st *state.StateDB) *types.Transaction {
 	if from == nil || from.Key == nil {
 		panic("unknown sender " + a.A)
 	}
-	nonce := st.GetNonce(from.Addr)
+	return w.MakeTxAt(a, st.GetNonce(from.Addr), st.GetBalance(from.Addr))
+}
+
+// MakeTxAt maps an abstract transaction to a signed real one with the given next nonce and current balance of the sender
+// (pool submissions: the nonce is the pool's pending nonce).
+func (w *World) MakeTxAt(a *ATx, nonce uint64, balance *big.Int) *types.Transaction {
+	from := w.Who[a.A]
+	if from == nil || from.Key == nil {
+		panic("unknown sender " + a.A)
+	}
 	price := big.NewInt(a.P)
 	if a.P == 0 {
 		price = big.NewInt(1)
@@ -314,7 +338,7 @@ func (w *World) MakeTx(a *ATx, st *state.StateDB) *types.Transaction {
 		to, value, gas = w.Who[a.B].Addr, x, params.TxGas
 	case "nofunds": // value above the balance: refused by the EVM's CanTransfer (consensus error), reverted by the builder
 		to, gas = w.Who[a.B].Addr, params.TxGas
-		value = new(big.Int).Add(st.GetBalance(from.Addr), big.NewInt(1))
+		value = new(big.Int).Add(balance, big.NewInt(1))
 	case "badnonce": // refused up front
 		to, value, gas = w.Who[a.B].Addr, x, params.TxGas
 		nonce += 3
@@ -357,8 +381,22 @@ func (w *World) MakeTx(a *ATx, st *state.StateDB) *types.Transaction {
 		data = stakingData(stk.DelegationSettle, &stk.TxDelegationSettle{Validator: vaddr()})
 	case "garbage": // undecodable staking message: accepted, failed, all gas used
 		to, data = sm, []byte{0xff, 0x01, 0x02}
+	case "biggas": // the same with a gas limit of which only two fit into a block
+		to, data, gas = sm, []byte{0xff, 0x01, 0x02}, 3000000
+	case "drain": // a transfer that leaves the sender 5000 LU: its later transactions cannot pay for their gas any more
+		to, gas = w.Who[a.B].Addr, params.TxGas
+		value = new(big.Int).Sub(balance, new(big.Int).Add(big.NewInt(5000), new(big.Int).Mul(price, big.NewInt(int64(params.TxGas)))))
+		if value.Sign() < 0 {
+			value = new(big.Int)
+		}
+	case "gap": // a transfer one nonce ahead: not executable until the gap is filled
+		to, value, gas = w.Who[a.B].Addr, x, params.TxGas
+		nonce++
 	default:
 		panic("unknown tx kind " + a.K)
+	}
+	if a.G > 0 {
+		gas = uint64(a.G)
 	}
 	tx, err := types.SignTx(types.NewTransaction(nonce, to, value, gas, price, data), w.Signer, from.Key.Priv)
 	if err != nil {
